@@ -41,6 +41,8 @@ type FeedWorld struct {
 	feeds     []*fwFeed
 	bDropped  bool
 	recreated bool // B was dropped and created again at least once
+	bStale    [3]bool // handle i has not looked B up since it was re-created through another handle
+	closedColl [3]map[string]*rosmar.Collection // collection objects a handle had obtained before it was closed
 	deleted   bool
 	shutdown  bool // store shut down (deleted, or last on-disk handle closed)
 	step      int
@@ -81,7 +83,7 @@ func (w *FeedWorld) Alphabet(tier int) []string {
 		}
 	}
 	ops = append(ops, "start/0/A/hold", "start/1/AB/hold", "release/0", "release/1", "release/2")
-	ops = append(ops, "term/0", "term/1", "term/2", "drop/0", "drop/1", "drop/2", "recreate/0", "recreate/1", "close/0", "close/1", "close/2", "delete/0", "delete/1")
+	ops = append(ops, "term/0", "term/1", "term/2", "drop/0", "drop/1", "drop/2", "recreate/0", "recreate/1", "lookup/0", "lookup/1", "close/0", "close/1", "close/2", "delete/0", "delete/1")
 	return ops
 }
 
@@ -103,6 +105,24 @@ func (w *FeedWorld) Apply(op string) (string, []Violation) {
 	case "start":
 		var hi int
 		fmt.Sscanf(parts[1], "%d", &hi)
+		if w.hState[hi] == "closed" && parts[3] == "live" && parts[2] != "AB" {
+			// through a closed handle (whether or not the store is still up): refused, nothing starts
+			f := NewFeedRec("closedstart")
+			var err error
+			if parts[2] == "bA" {
+				err = w.h[hi].StartDCPFeed(ctx, sgbucket.FeedArguments{ID: f.Name, Backfill: sgbucket.FeedNoBackfill, Terminator: f.Term, DoneChan: f.Done, Scopes: map[string][]string{"sc": {"A"}}}, f.callback, nil)
+			} else if cl := w.closedColl[hi][parts[2]]; cl != nil {
+				err = cl.StartDCPFeed(ctx, sgbucket.FeedArguments{ID: f.Name, Backfill: sgbucket.FeedNoBackfill, Terminator: f.Term, DoneChan: f.Done}, f.callback, nil)
+			} else {
+				return "skip", nil
+			}
+			if err == nil {
+				c.add("C13", "closed-handle-call", "StartDCPFeed (%s) through a closed handle returned nil", parts[2])
+				f.CloseTerm()
+			}
+			w.probe(c)
+			return "refused", c.out
+		}
 		if len(w.feeds) >= 3 || w.hState[hi] != "open" || w.shutdown {
 			return "skip", nil
 		}
@@ -119,6 +139,11 @@ func (w *FeedWorld) Apply(op string) (string, []Violation) {
 		for _, cn := range colls {
 			if !w.exists(cn) {
 				return "skip", nil
+			}
+		}
+		for _, cn := range colls {
+			if cn == "B" {
+				w.bStale[hi] = false
 			}
 		}
 		f := &fwFeed{rec: NewFeedRec(fmt.Sprintf("f%d", len(w.feeds))), colls: colls, dump: dump, ended: map[string]bool{}, viaBkt: target == "AB" || target == "bA"}
@@ -184,6 +209,14 @@ func (w *FeedWorld) Apply(op string) (string, []Violation) {
 	case "drop":
 		var hi int
 		fmt.Sscanf(parts[1], "%d", &hi)
+		if !w.bDropped && w.hState[hi] == "closed" && !w.shutdown {
+			// through a closed handle: refused, and nothing of the collection (its feeds) is touched
+			if err := w.h[hi].DropDataStore(NameB); err == nil {
+				c.add("C13", "closed-handle-call", "DropDataStore through a closed handle returned nil")
+			}
+			w.probe(c)
+			return "refused", c.out
+		}
 		if w.bDropped || w.hState[hi] != "open" || w.shutdown {
 			return "skip", nil
 		}
@@ -212,11 +245,31 @@ func (w *FeedWorld) Apply(op string) (string, []Violation) {
 			break
 		}
 		w.bDropped, w.recreated = false, true
+		w.bStale = [3]bool{true, true, true}
+		w.bStale[hi] = false
+	case "lookup":
+		// a handle that had B cached before it was dropped looks it up again (an operation of its own: the
+		// probe below does not do it, so that a stale cache can live until something depends on it)
+		var hi int
+		fmt.Sscanf(parts[1], "%d", &hi)
+		if w.bDropped || !w.bStale[hi] || w.hState[hi] != "open" || w.shutdown {
+			return "skip", nil
+		}
+		if _, err := w.h[hi].NamedDataStore(NameB); err != nil {
+			c.add("C11", "lookup", "looking the re-created collection up through another open handle failed: %v", err)
+		}
+		w.bStale[hi] = false
 	case "close":
 		var hi int
 		fmt.Sscanf(parts[1], "%d", &hi)
 		if w.hState[hi] != "open" {
 			return "skip", nil
+		}
+		if hi < 2 {
+			w.closedColl[hi] = map[string]*rosmar.Collection{"A": coll(w.h[hi], NameA)}
+			if w.exists("B") && !w.bStale[hi] {
+				w.closedColl[hi]["B"] = coll(w.h[hi], NameB)
+			}
 		}
 		w.h[hi].Close(ctx)
 		w.hState[hi] = "closed"
@@ -283,7 +336,7 @@ func (w *FeedWorld) probe(c *checker) {
 			continue
 		}
 		for _, cn := range []string{"A", "B"} {
-			if !w.exists(cn) {
+			if !w.exists(cn) || (cn == "B" && w.bStale[hi]) {
 				continue
 			}
 			key := fmt.Sprintf("p%d", hi)
@@ -325,7 +378,7 @@ func (w *FeedWorld) probe(c *checker) {
 
 func (w *FeedWorld) Canon() string {
 	var b strings.Builder
-	fmt.Fprintf(&b, "h=%v drop=%v/%v shut=%v|", w.hState, w.bDropped, w.recreated, w.shutdown)
+	fmt.Fprintf(&b, "h=%v drop=%v/%v/%v shut=%v|", w.hState, w.bDropped, w.recreated, w.bStale, w.shutdown)
 	for _, f := range w.feeds {
 		var e []string
 		for _, cn := range f.colls {
